@@ -25,14 +25,51 @@ func isDeriver(name string) bool {
 var mutatorNames = map[string]bool{"Add": true, "Insert": true, "Replace": true, "Delete": true, "Pop": true, "Clear": true, "Sort": true, "Reverse": true,
 	"Set": true, "Unset": true, "SetTF": true, "UnsetTF": true, "Init": true}
 
-// implsOfIface returns the sorted implementation names "(*list).X" of all methods of both container interfaces satisfying pred.
+// pinnedAPI: the methods of the two container interfaces the properties were written against (the exported API of the pinned tree).
+// The properties name these operations (or families of them: "the typed variants the API offers", "non-mutating operations");
+// a method ADDED to an interface later is outside every property — what it does to the existing ones reaches the rules through
+// the effects and calls of the existing methods that use it, which stay under obligation.
+var pinnedAPI = map[bool]map[string]bool{
+	true: setOf("Init Ego Add Insert Replace Delete Pop Clear Get GetObject GetList GetString GetBool GetInt GetFloat TypeOf String FormatString Slice NativeSlice " +
+		"ObjectSlice ListSlice StringSlice BoolSlice IntSlice FloatSlice Clone Count Empty Equals Concat SubList Contains IndexOf Sort Reverse AllObjects AllLists " +
+		"AllStrings AllBools AllInts AllFloats AllNumeric ForEach ForEachValue ForEachObject ForEachList ForEachString ForEachBool ForEachInt ForEachFloat Map MapValues " +
+		"MapObjects MapLists MapStrings MapBools MapInts MapFloats Reduce ReduceStrings ReduceInts ReduceFloats Filter FilterObjects FilterLists FilterStrings FilterInts " +
+		"FilterFloats IntSum Sum IntProd Prod Avg IntMin Min IntMax Max ForEachAsync MapAsync GetTF SetTF UnsetTF TypeOfTF"),
+	false: setOf("Init Ego Set Unset Clear Get GetObject GetList GetString GetBool GetInt GetFloat TypeOf String FormatString Dict NativeDict Keys Values Clone Count " +
+		"Empty Equals Merge Pluck Contains KeyOf KeyExists ForEach ForEachValue ForEachObject ForEachList ForEachString ForEachBool ForEachInt ForEachFloat Map MapValues " +
+		"MapObjects MapLists MapStrings MapBools MapInts MapFloats ForEachAsync MapAsync GetTF SetTF UnsetTF TypeOfTF"),
+}
+
+// pinnedFuncs: the exported package-level functions of the pinned tree (vocabulary of the rules; never inlined).
+var pinnedFuncs = setOf("NewList NewListOf NewListFrom NewObject NewObjectFrom ParseList ParseObject ParseFile")
+
+func setOf(names string) map[string]bool {
+	m := map[string]bool{}
+	for _, n := range strings.Fields(names) {
+		m[n] = true
+	}
+	return m
+}
+
+// pinnedMethods: the methods of the container's interface that belong to the pinned API, sorted.
+func pinnedMethods(ct *Cont) []*types.Func {
+	var out []*types.Func
+	for _, m := range ifaceMethods(ct.Iface) {
+		if pinnedAPI[ct.IsList][m.Name()] {
+			out = append(out, m)
+		}
+	}
+	return out
+}
+
+// implsOfIface returns the sorted implementation names "(*list).X" of all pinned methods of both container interfaces satisfying pred.
 func implNames(c *Ctx, pred func(name string) bool) []string {
 	var out []string
 	for _, ct := range c.Inv().Conts {
 		if ct.Iface == nil {
 			continue
 		}
-		for _, m := range ifaceMethods(ct.Iface) {
+		for _, m := range pinnedMethods(ct) {
 			if pred(m.Name()) {
 				out = append(out, "(*"+ct.Named.Obj().Name()+")."+m.Name())
 			}
@@ -235,6 +272,32 @@ func storedValues(a *E3, fn *ssa.Function, targetPred func(O) bool) []storedValu
 							out = append(out, storedValue{x.Pos(), "value given to " + cc.StaticCallee().Name(), o, v})
 						}
 						continue
+					}
+					// a private helper that fills a spine handed to it (`copyFields(dst, src)`): what it stores there, in the caller's terms
+					if cal := cc.StaticCallee(); cal != nil && a.inPkg(cal) && cal.Signature.Recv() == nil {
+						sargs := slotArgs(cal, callArgs(cc))
+						for _, e := range a.eff[cal] {
+							if e.Kind != "store-elem" && e.Kind != "store-arg-elem" && e.Kind != "map-update" && e.Kind != "append-into" {
+								continue
+							}
+							for i, b := range []O{oP1, oP2, oP3} {
+								if e.Target&b == 0 || i+1 >= len(sargs) || sargs[i+1] == nil || !a.isSpine(sargs[i+1].Type()) {
+									continue
+								}
+								if targetPred(a.get(sargs[i+1]) & oROOTS) {
+									var v ssa.Value
+									switch st := e.Instr.(type) {
+									case *ssa.Store:
+										v = st.Val
+									case *ssa.MapUpdate:
+										v = st.Value
+									}
+									if v != nil {
+										out = append(out, storedValue{x.Pos(), "store by " + cal.Name(), a.subst(e.Value, sargs), v})
+									}
+								}
+							}
+						}
 					}
 					for _, cal := range a.Callees(cc) {
 						s := a.sum[cal]
